@@ -1105,7 +1105,9 @@ class PolarsModel(data_algebra.data_model.DataModel):
         reversed_cols = [
             True if ci in set(op.reverse) else False for ci in op.order_columns
         ]
-        res = res.sort(by=op.order_columns, descending=reversed_cols)
+        res = res.sort(
+            by=op.order_columns, descending=reversed_cols, nulls_last=True
+        )  # missing values last, as Pandas orders them
         if op.limit is not None:
             res = res.head(op.limit)
         return res
